@@ -21,7 +21,7 @@ def header(ver, spc, nbat, size_sectors, first_block, *, sig=None, in_use=0, hea
     return h
 
 
-def build(img, *, cluster_size=1 << 20, file_id=0, P=None, size_bytes=None, hdr_kw=None, name=None, pos_shift=0):
+def build(img, *, cluster_size=1 << 20, file_id=0, P=None, size_bytes=None, hdr_kw=None, name=None, pos_shift=0, first_cluster=0):
     """img: {"ver","n","cb","bat","size"} (entries: v2 cluster positions, v1 *cell* positions) -> (VirtualFile, info).
     pos_shift: added to every allocated position (clusters for v2, cells for v1): entries with the top bit set."""
     cb, n, ver = img["cb"], img["n"], img["ver"]
@@ -36,7 +36,8 @@ def build(img, *, cluster_size=1 << 20, file_id=0, P=None, size_bytes=None, hdr_
     hdr_cells = -(-(64 + 4 * n) // cell)  # header + BAT occupy this many cells
     if ver == 2:
         raw = ents
-        hdr_clusters = max(1, -(-(64 + 4 * n) // cluster_size))
+        # first_cluster: the data area may start further into the file than header + BAT need (space reserved for a growing BAT)
+        hdr_clusters = max(1, -(-(64 + 4 * n) // cluster_size), first_cluster)
         first = hdr_clusters                      # m_FirstBlockOffset: where the data blocks start (header + BAT, rounded up)
         top = max((max(ents + [0]) + 1) if P is None else (P + 1), hdr_clusters)
         assert all(e == 0 or e * cluster_size >= 64 + 4 * n for e in ents), "cluster overlaps header"
